@@ -423,7 +423,7 @@ def run_check(prop, tier: str, seed: int, replay_path: str | None = None) -> int
                 case = shrink(st, case, v["signature"])
             except BaseException:
                 pass
-        replay_file = ROOT / "replay" / f"{prop.ID}-{v['signature'][:40].replace('/', '_').replace('|', '_').replace(' ', '_')}.json"
+        replay_file = ROOT / "replay" / (prop.ID + "-" + "".join(ch if (ch.isalnum() or ch in "-.") else "_" for ch in v["signature"][:48]) + ".json")
         rec = {
             "property": prop.ID,
             "kind": "failing-input",
